@@ -235,6 +235,19 @@ func (w *world) renew(i int, c renewCase, variant int) renewObs {
 		oldDer = resp.GetCertDer()
 		how = append(how, "issued-by-RequestCertificate")
 	case c.CA == "client":
+		if c.Ver == "v2" { // issued out of band with the CA: the subject need not be the one RequestCertificate would build
+			if variant%4 == 1 || variant%6 == 5 {
+				other := make([]byte, 32)
+				rand.Read(other)
+				subject = pki.MakeSubjectV2(id, other)
+				how = append(how, "hash-component-not-of-key")
+			}
+			if variant%4 == 1 || variant%4 == 3 {
+				subject.Organization = []string{"verif org"}
+				subject.OrganizationalUnit = []string{"unit 7"}
+				how = append(how, "further-subject-attributes")
+			}
+		}
 		oldDer, err = pki.GenerateCertificate(logger, w.clientCA, pki.IdentityRequest{PublicKey: pubA, Subject: subject})
 		how = append(how, "issued-by-client-CA")
 	default:
